@@ -121,11 +121,11 @@ def coq_make(targets=None, timeout=3100):
         return rc == 0, so + se
 
 
-def ocaml_build(timeout=600):
-    """Extract + build the OCaml runners (build/…); returns (ok, log)."""
-    with Lock("ocaml"):
-        rc, so, se = sh([os.path.join(VERIF, "bin", "build-ocaml")], timeout=timeout)
-        return rc == 0, so + se
+def ocaml_build(*engines, timeout=600):
+    """Extract + build the OCaml runner(s) build/ocaml/<engine>/run; no argument = all
+    engines.  Returns (ok, log)."""
+    rc, so, se = sh([os.path.join(VERIF, "bin", "build-ocaml")] + list(engines), timeout=timeout)
+    return rc == 0, so + se
 
 
 def coq_sources():
@@ -252,7 +252,8 @@ class Ctx:
     def proofs(self, extra_obligations=None):
         """Build Coq, scan for forbidden commands, check Properties_<id>.v.
         Records obligations/discharged; broken ones go to self.broken."""
-        ok, log = coq_make()
+        # build only the dependency closure of this property's statement file
+        ok, log = coq_make(["Properties/Properties_%s.vo" % self.pid])
         self.notes["coq_make_ok"] = ok
         hits = forbidden_scan()
         if hits:
